@@ -197,10 +197,8 @@ Proof. unfold all_nodes_sat. rewrite forallb_forall. auto. Qed.
 (* ================= totality ================= *)
 Lemma tag_eqb_eq x y : tag_eqb x y = true -> x = y.
 Proof.
-  destruct x as [| | | | | | | | | | | | | | | | | | | | | | | | | | | | | c];
-    destruct y as [| | | | | | | | | | | | | | | | | | | | | | | | | | | | | c'];
-    simpl; try discriminate; try reflexivity; try (destruct c; discriminate).
-  destruct c, c'; simpl; try discriminate; reflexivity.
+  destruct x, y; simpl; intros H; try reflexivity; try discriminate H;
+    repeat match goal with c : nclass |- _ => destruct c end; simpl in H; try discriminate H; reflexivity.
 Qed.
 
 Lemma is_tag_eq t n : is_tag t n = true -> ntag n = t.
